@@ -28,7 +28,8 @@
 //! and the row tails are used by the canonical printer only); an optional 10th field gives the order of
 //! the lines for the canonical printer: `,`-joined codes A I N D (the AC/ID/NA/DE line), M (matrix
 //! block), X (an XX line), R<i> (the i-th reference of <refs>: RN line, then RX / RT / RL lines for the
-//! pmid / title / link that are present), s<k><hex> (a BA/BS/BF/CO line: k = a|s|f|c, hex = the text after the code);
+//! pmid / title / link that are present), c<hex>.<hex>... (a run of CC lines, hex = text after the code),
+//! d<day>.<month>.<year>.<c|u>.<author hex> (a DT line), s<k><hex> (a BA/BS/BF/CO line: k = a|s|f|c, hex = the text after the code);
 //! `-` or absent = the default order A X I X N X D X M X.
 
 use lightmotif::abc::{Alphabet, Dna, Protein, Symbol};
@@ -459,6 +460,29 @@ fn print_canon(vv: &Option<String>, recs: &[Rec], eol: &str, fnl: bool) -> Vec<u
                         }
                     }
                 }
+                c if c.starts_with('c') => {
+                    // a run of comment lines: texts joined by '.'
+                    for t in c[1..].split('.') {
+                        s += "CC";
+                        s += &String::from_utf8(unhex(t)).unwrap();
+                        s += eol;
+                    }
+                }
+                c if c.starts_with('d') => {
+                    // a date line: d<day>.<month>.<year>.<c|u>.<author hex>
+                    let q: Vec<&str> = c[1..].split('.').collect();
+                    if q.len() == 5 {
+                        s += &format!(
+                            "DT  {}.{}.{} ({}); {}.{}",
+                            q[0],
+                            q[1],
+                            q[2],
+                            if q[3] == "c" { "created" } else { "updated" },
+                            String::from_utf8(unhex(q[4])).unwrap(),
+                            eol
+                        );
+                    }
+                }
                 c if c.starts_with('s') && c.len() >= 2 => {
                     let tag = match &c[1..2] {
                         "a" => "BA",
@@ -791,6 +815,31 @@ fn gen_rec(rng: &mut Rng, alpha: &str, maxw: u64, canon: bool) -> Rec {
             let pos = rng.below(items.len() as u64 + 1) as usize;
             items.insert(pos, format!("s{}{}", k, hex(text.as_bytes())));
         }
+        // comment runs and date lines
+        for _ in 0..(if rng.chance(1, 3) { 1 + rng.below(2) } else { 0 }) {
+            let n = 1 + rng.below(3);
+            let texts: Vec<String> = (0..n)
+                .map(|_| {
+                    let t = if rng.chance(3, 4) { format!("  comment {}", rng.below(100)) } else { gen_text(rng, 20) };
+                    hex(t.as_bytes())
+                })
+                .collect();
+            let pos = rng.below(items.len() as u64 + 1) as usize;
+            items.insert(pos, format!("c{}", texts.join(".")));
+        }
+        for _ in 0..(if rng.chance(1, 3) { 1 + rng.below(2) } else { 0 }) {
+            let author = if rng.chance(2, 3) { rng.pick(&["ewi", "abc", "x y", ""]).to_string() } else { gen_text(rng, 10).replace('.', "_") };
+            let code = format!(
+                "d{}.{}.{}.{}.{}",
+                if rng.chance(1, 2) { format!("{:02}", 1 + rng.below(28)) } else { (1 + rng.below(28)).to_string() },
+                if rng.chance(1, 2) { format!("{:02}", 1 + rng.below(12)) } else { (1 + rng.below(12)).to_string() },
+                1990 + rng.below(40),
+                if rng.chance(1, 2) { "c" } else { "u" },
+                hex(author.as_bytes())
+            );
+            let pos = rng.below(items.len() as u64 + 1) as usize;
+            items.insert(pos, code);
+        }
         let xx = rng.below(3); // 0: after every line, 1: random, 2: none
         let mut order: Vec<String> = vec![];
         for it in items {
@@ -804,6 +853,14 @@ fn gen_rec(rng: &mut Rng, alpha: &str, maxw: u64, canon: bool) -> Rec {
         }
         if order.is_empty() && rng.chance(1, 2) {
             order.push("X".to_string());
+        }
+        // two adjacent comment runs would be one run: separate them
+        let mut k = 1;
+        while k < order.len() {
+            if order[k].starts_with('c') && order[k - 1].starts_with('c') {
+                order.insert(k, "X".to_string());
+            }
+            k += 1;
         }
         // an empty order means "default order": keep the encoding unambiguous
         if order.is_empty() {
